@@ -350,36 +350,7 @@ func runC05(c *Ctx) {
 
 	// ---------------- R5.2
 	mustPass := func(rule, construct string, fn *ssa.Function, must func(ssa.Instruction) bool, what string, exempt ...FactM) {
-		n := 0
-		for _, ret := range returnsOf(fn) {
-			if ret.Block() == fn.Recover || len(ret.Results) == 0 {
-				continue
-			}
-			res := ret.Results[len(ret.Results)-1]
-			succ := false
-			for _, lf := range Leaves(res, ret.Block()) {
-				if k, ok := lf.V.(*ssa.Const); ok && k.IsNil() {
-					succ = true
-				}
-			}
-			if !succ {
-				continue
-			}
-			fs := FactsAtInstr(ret)
-			ex := false
-			for _, e := range exempt {
-				if HasFact(fs, e) {
-					ex = true
-				}
-			}
-			if ex {
-				continue
-			}
-			n++
-			reach, _ := CanReach(Entry(fn), func(in ssa.Instruction) bool { return in == ssa.Instruction(ret) }, ReachOpts{CutInstr: must})
-			c.Ob(rule, construct+"#success-return", ret.Pos(), !reach, what, ifs(reach, "this `return nil` is reachable without the undo having run: the release is reported finalized and the undo never happens")).WithFacts(fs)
-		}
-		_ = n
+		mustPassOnSuccess(c, rule, construct, fn, must, what, exempt...)
 	}
 	for _, bg := range []struct{ name, pkg string }{{"bluegreen/Deployment", cp + "bluegreenstyle/deployment"}, {"bluegreen/CloneSet", cp + "bluegreenstyle/cloneset"}} {
 		ini := p.Func(bg.pkg + ".realController.Initialize")
@@ -613,4 +584,43 @@ func setsOwner(p *Program, fn *ssa.Function, obj ssa.Value, depth int) bool {
 		}
 	}
 	return false
+}
+
+// mustPassOnSuccess: every return of fn whose last (error) result can be nil — a constant nil, or
+// client.IgnoreNotFound(err), which turns NotFound into nil — is reachable only through an
+// instruction satisfying must, unless the facts at the return match an exemption.
+func mustPassOnSuccess(c *Ctx, rule, construct string, fn *ssa.Function, must func(ssa.Instruction) bool, what string, exempt ...FactM) int {
+	n := 0
+	for _, ret := range returnsOf(fn) {
+		if ret.Block() == fn.Recover || len(ret.Results) == 0 {
+			continue
+		}
+		res := ret.Results[len(ret.Results)-1]
+		succ := ""
+		for _, lf := range Leaves(res, ret.Block()) {
+			if k, ok := lf.V.(*ssa.Const); ok && k.IsNil() {
+				succ = "return nil"
+			}
+			if call, ok := lf.V.(*ssa.Call); ok && NameMatch(CalleeName(&call.Call), "client.IgnoreNotFound") {
+				succ = "return client.IgnoreNotFound(err)"
+			}
+		}
+		if succ == "" {
+			continue
+		}
+		fs := FactsAtInstr(ret)
+		ex := false
+		for _, e := range exempt {
+			if HasFact(fs, e) {
+				ex = true
+			}
+		}
+		if ex {
+			continue
+		}
+		n++
+		reach, _ := CanReach(Entry(fn), func(in ssa.Instruction) bool { return in == ssa.Instruction(ret) }, ReachOpts{CutInstr: must})
+		c.Ob(rule, construct+"#success-return", ret.Pos(), !reach, what, ifs(reach, "this `"+succ+"` is reachable without the required step having run")).WithFacts(fs)
+	}
+	return n
 }
